@@ -196,7 +196,7 @@ Body(name, q, sd, d) ==
       r == E(rule.exp, q, <<>>, sd, d - 1) IN
   IF Abort(r) THEN r
   ELSE IF r.k # "ok" THEN F
-  ELSE LET ns  == IF rule.exp.op = "alt" THEN r.ns ELSE WithDefaults(r.ns, rule.exp)
+  ELSE LET ns  == IF Strip(rule.exp).op = "alt" THEN r.ns ELSE WithDefaults(r.ns, rule.exp)
            val == IF AstHas(ns, "@") THEN AstGet(ns, "@")
                   ELSE IF ns # <<>> THEN Dict(ns)
                   ELSE CstFinal(Pack(r.items)) IN
